@@ -425,6 +425,51 @@ def _ite(I, c, a, b):
     return I.ite(I.z3bool(c), a, b)
 
 
+@reg('sum_unfold')
+def _sum_unfold(I, arr, lo, hi):
+    """definitional unfolding of the specification sum at its upper end:
+    hi <= lo -> sum == 0;  hi > lo -> sum(arr,lo,hi) == sum(arr,lo,hi-1) + arr[hi-1]"""
+    if isinstance(arr, list):
+        arr = I.list_to_arr(arr)
+    f = sum_fn(arr.kind)
+    a = arr.leaves[0]
+    lo, hi = to_z3(lo), to_z3(hi)
+    zero = to_z3(0, kind_sort(arr.kind))
+    return z3.And(z3.Implies(hi <= lo, f(a, lo, hi) == zero),
+                  z3.Implies(hi > lo, f(a, lo, hi) == f(a, lo, hi - 1) + z3.Select(a, hi - 1)))
+
+
+@reg('seg_weight')
+def _seg_weight(I, ST, d, parity):
+    """sum of d[j] over the entries (j, k) of the schedule ST with k == parity; for a segmented list
+    (items * count + ...) this is  sum_i count_i * (sum over items_i)  [lemma: sum(xs * n) = n * sum(xs)]."""
+    I.trusted.add('lemma sum(xs * n) == n * sum(xs) for list repetition (built into seg_weight)')
+    segs = ST.segs if isinstance(ST, SegList) else [(list(ST), 1)]
+    tot = 0
+    for items, c in segs:
+        w = 0
+        for (j, k) in items:
+            if k == parity:
+                w = I.binop(ast.Add(), w, I.getitem(d, j))
+        if is_z3(w):
+            w = z3.simplify(w)
+            if z3.is_rational_value(w):
+                w = Fraction(w.numerator_as_long(), w.denominator_as_long())
+        tot = I.binop(ast.Add(), tot, I.binop(ast.Mult(), c, w))
+    return tot
+
+
+@reg('seg_all')
+def _seg_all(I, ST, pred):
+    """pred holds for every entry of a (segmented) list."""
+    segs = ST.segs if isinstance(ST, SegList) else [(list(ST), 1)]
+    out = []
+    for items, c in segs:
+        for it in items:
+            out.append(I.z3bool(I.call(pred, [it], {})))
+    return z3.And(*out) if out else True
+
+
 @reg('apply')
 def _apply(I, f, pack):
     from .interp import APPLY
@@ -817,6 +862,8 @@ def module_model(name):
             'sum': Builtin(lambda I, a, **k: _sum(I, a), 'np.sum'),
             'intp': _DType('intp'), 'int64': _DType('int64'), 'float64': _DType('float64'), 'bool_': _DType('bool'),
             'inf': None, 'abs': Builtin(_abs, 'np.abs'),
+            # dt is modelled as a real number (complex time steps are outside the modelled domain)
+            'iscomplex': Builtin(lambda I, x: False, 'np.iscomplex'),
         })
     if name == 'bisect':
         return ModuleVal('bisect', {'bisect': Builtin(bisect_right, 'bisect.bisect'),
